@@ -8,17 +8,26 @@
 (* specification TraceQuery judges every evaluation of a recorded history   *)
 (* against the denotation irrespective of its position.                     *)
 EXTENDS Naturals, Sequences, FiniteSets, TLC, Json
-CONSTANTS NQ, MaxLen, WithCfg
-VARIABLES caching, residue, hist
-vars == <<caching, residue, hist>>
+CONSTANTS NQ, MaxLen, WithCfg,
+          WithBuild    \* TRUE: constructing a query object is a step of the history (it happens under whatever
+                       \* configuration is active then); FALSE: every query exists before the history starts
+VARIABLES caching, residue, hist, built
+vars == <<caching, residue, hist, built>>
+\* built[q]: "-" not constructed yet, else the configuration under which q was constructed - again history
+\* information the promise must not depend on
 \* residue[q]: what the last evaluation of q left behind in the mechanism ("clean" after a completed one);
 \* it is history information the promise must NOT depend on
 Ops == [op : {"drain"}, qi : 1..NQ, k : {0}, how : {"-"}]
        \cup [op : {"partial"}, qi : 1..NQ, k : {1, 2}, how : {"close", "drop"}]
        \cup [op : {"raised"}, qi : 1..NQ, k : {1, 2, 3}, how : {"-"}]
        \cup (IF WithCfg THEN [op : {"cfg"}, qi : {0}, k : {0, 1}, how : {"-"}] ELSE {})
-Init == caching = TRUE /\ residue = [q \in 1..NQ |-> "clean"] /\ hist = <<>>
-Do(o) == /\ hist' = Append(hist, o)
+       \cup (IF WithBuild THEN [op : {"build"}, qi : 1..NQ, k : {0}, how : {"-"}] ELSE {})
+Init == /\ caching = TRUE /\ residue = [q \in 1..NQ |-> "clean"] /\ hist = <<>>
+        /\ built = [q \in 1..NQ |-> IF WithBuild THEN "-" ELSE "on"]
+Do(o) == /\ IF o.op = "build" THEN built[o.qi] = "-"                 \* constructed once
+            ELSE o.op # "cfg" => built[o.qi] # "-"                    \* evaluated only once it exists
+         /\ built' = IF o.op = "build" THEN [built EXCEPT ![o.qi] = IF caching THEN "on" ELSE "off"] ELSE built
+         /\ hist' = Append(hist, o)
          /\ caching' = IF o.op = "cfg" THEN o.k = 1 ELSE caching
          /\ residue' = CASE o.op = "drain" -> [residue EXCEPT ![o.qi] = "clean"]
                          [] o.op = "partial" -> [residue EXCEPT ![o.qi] = "abandoned"]
@@ -29,5 +38,6 @@ Spec == Init /\ [][Next]_vars
 Bound == Len(hist) <= MaxLen
 \* export only histories that end with a full evaluation (the one whose answer is judged last)
 Export == (Len(hist) = MaxLen /\ hist[MaxLen].op = "drain") => PrintT(<<"BEH", ToJson(hist)>>)
-TypeOK == caching \in BOOLEAN /\ \A q \in 1..NQ : residue[q] \in {"clean", "abandoned", "aborted"}
+TypeOK == /\ caching \in BOOLEAN /\ \A q \in 1..NQ : residue[q] \in {"clean", "abandoned", "aborted"}
+          /\ \A q \in 1..NQ : built[q] \in {"-", "on", "off"}
 =============================================================================
